@@ -435,7 +435,10 @@ class PlanEngine(Engine):
                 gdis = cfg['default'].get('disable', [])
                 seeds = list(cfg['seeds']) + [k for k, v in cfg['routines'].items() if v.get('role') == 'driver' and
                                               k.split('#')[-1] not in [x.split('#')[-1] for x in cfg['seeds']] and
-                                              not BG.matches_with_parents(k, gdis)]
+                                              not BG.matches_with_parents(k, gdis) and
+                                              not any(BG.matches_with_parents(BG.item_name(scenario['proj'], q), gdis)
+                                                      for q in scenario['proj']['procs']
+                                                      if BG.matches(BG.item_name(scenario['proj'], q), [k]))]
                 ref = BG.reference_graph(scenario['proj'], dict(cfg, seeds=seeds))
                 file_of = {}
                 for f in scenario['proj']['files']:
